@@ -503,8 +503,11 @@ var Scenarios = map[string]scenario{
 	},
 	// ------------------------------------------------------------------ stdio readers
 	"stdio.reader": func(lg *rec.Log, r *rand.Rand) {
-		line := r.Intn(2) == 0
-		size := []int{0, 1, 1023, 1024, 1025, 2048, 5000, 70000}[r.Intn(8)] // crosses the reader buffer size; 70000: one line longer than bufio's 64 KiB token limit
+		// boundary sizes are cycled, not drawn: every run of 16 rounds covers both readers on every size (the huge line first)
+		round := stdioRound
+		stdioRound++
+		line := round%2 == 0
+		size := []int{70000, 0, 1, 1023, 1024, 1025, 2048, 5000}[(round/2)%8] // crosses the reader buffer size; 70000: one line longer than bufio's 64 KiB token limit
 		data := make([]byte, size)
 		for i := range data {
 			data[i] = byte('a' + r.Intn(26))
@@ -635,6 +638,8 @@ func times(r *rand.Rand) []time.Time {
 	}
 	return out
 }
+
+var stdioRound int
 
 var sortRound = -1
 
